@@ -352,3 +352,66 @@ def mk_case(n, deps, ops, par, inputs=None, panic_at=None, jitter=0, timeout_ms=
     if slow_us:
         c["slow_us"] = {str(k): v for k, v in slow_us.items()}
     return c
+
+
+# ---------------------------------------------------------------- Coq case terms
+REPAIRED = False   # which completion / wake-up protocol the working tree has (Model/IncExec.v wfix); flip with the fix commit
+
+HEADER = ("From Coq Require Import List Arith Bool NArith.\nImport ListNotations.\n"
+          "From PV Require Import Common.Corr Model.IncExec.\n")
+
+
+def nl(xs):
+    return "[" + ";".join(str(x) for x in xs) + "]"
+
+
+def coq_case(case, out, after_cancel=False):
+    """the observed history as a Coq icase term (None if nothing comparable was observed)"""
+    n, deps = case["n"], case["deps"]
+    rc = reaches_cycle(n, deps)
+    ops = []
+    for op, o in zip(case["ops"], out.get("ops", [])):
+        if o.get("skipped"):
+            break
+        if op["op"] == "evict":
+            ops.append("CEvict %s %s" % (nl(op["keys"]), nl(o["keys"])))
+        elif op["op"] == "edit":
+            ops.append("CEdit %s %s %s" % (nl(op["keys"]), nl(op["vals"]), nl(o["keys"])))
+        elif op["op"] == "run":
+            r = o["runs"][0]
+            if r.get("hang"):
+                ops.append("CRun %s false [] [] None true" % nl(op["keys"]))
+                break
+            if r.get("escaped_panic") or r["err"] not in ("", "panicerr"):
+                break
+            canc = r["err"] == "panicerr"
+            res = []
+            if not canc:
+                for k, x in zip(op["keys"], r["results"]):
+                    if x["fatal"] not in ("none", "cycle"):
+                        return ops_term(case, ops)
+                    res.append("(%d%%N, %s, %s)" % (2 * x["v"] + (x["fatal"] != "none"), coq_bool(x["changed"]), coq_bool(not rc[k])))
+            ka = "None" if (canc and not after_cancel) else "(Some %s)" % nl(o["keys"])
+            ops.append("CRun %s %s [%s] %s %s false" % (nl(op["keys"]), coq_bool(canc), "; ".join(res), nl(o["execs"]), ka))
+            if canc and not after_cancel:
+                break
+        else:
+            runs = o["runs"]
+            if any(r.get("hang") or r.get("err") != "" for r in runs):
+                break
+            if any(rc[k] for s in op["runs"] for k in s):
+                break
+            if any(x["fatal"] != "none" for r in runs for x in r["results"]):
+                break
+            res = "[" + "; ".join("[" + ";".join("%d%%N" % (2 * x["v"]) for x in r["results"]) + "]" for r in runs) + "]"
+            ops.append("CPar [%s] %s %s" % ("; ".join(nl(s) for s in op["runs"]), res, nl(o["keys"])))
+    return ops_term(case, ops)
+
+
+def ops_term(case, ops):
+    if not ops:
+        return None
+    pan = "[" + "; ".join("(%s, %d)" % (k, v) for k, v in sorted(case.get("panic_at", {}).items())) + "]"
+    deps = "[" + "; ".join("[" + "; ".join(nl(g) for g in gs) + "]" for gs in case["deps"]) + "]"
+    return ("{| c_n := %d; c_deps := %s; c_panic := %s; c_fix := %s; c_par := %d; c_inputs := %s; c_ops := [%s] |}"
+            % (case["n"], deps, pan, coq_bool(REPAIRED), case["par"], nl(case["inputs"]), "; ".join(ops)))
